@@ -499,3 +499,62 @@ Example nv_recover_tree :
   let c := Call 100 (HM false) [ Call 101 (HM true) [ Call 102 (HM false) [] [] ] [ Call 0 (HM false) [] [] ] ] [] in
   targets (snd (run_ops st0 (full 1 c))) = map Some (native c).
 Proof. vm_compute. reflexivity. Qed.
+
+(* ------------------------------------------------------------------ finishing while frames are open *)
+Lemma restore_all_notin fs : forall m l, Forall (fun f => floc f <> l) fs -> restore_all fs m l = m l.
+Proof.
+  induction fs as [|f t IH]; intros m l H; cbn; auto.
+  rewrite IH by (eapply Forall_inv_tail; eauto). apply Forall_inv in H.
+  destruct (is_tramp (fip f)); auto. now rewrite upd_other by congruence.
+Qed.
+
+Lemma restore_all_app a b m : restore_all (a ++ b) m = restore_all b (restore_all a m).
+Proof. revert m. induction a as [|f t IH]; intro m; cbn; auto. Qed.
+
+(* within the chain of one slot only the oldest frame holds a real address: it is written last *)
+Lemma restore_all_chain d : forall chain low m,
+  chain <> [] -> Forall (fun f => floc f = d /\ is_cyg f = false) chain ->
+  Forall (fun f => floc f < d) low -> WFC (chain ++ low) ->
+  restore_all chain m d = bottom_ip chain /\ is_tramp (bottom_ip chain) = false.
+Proof.
+  induction chain as [|f ch IH]; intros low m Hne Hch Hlow Hw; [congruence|].
+  pose proof (Forall_inv Hch) as [Hfd Hfc]. apply Forall_inv_tail in Hch.
+  cbn [app WFC] in Hw. destruct Hw as (Hwt & _ & Hlink). specialize (Hlink Hfc).
+  cbn [restore_all bottom_ip].
+  destruct ch as [|g ch'].
+  - cbn [app] in Hlink. assert (Hreal : is_tramp (fip f) = false).
+    { destruct low as [|g0 t0]; auto. apply Forall_inv in Hlow. rewrite Hfd in Hlink.
+      destruct (Nat.eqb_spec (floc g0) d); [lia | auto]. }
+    rewrite Hreal. cbn. rewrite Hfd, upd_same. auto.
+  - pose proof (Forall_inv Hch) as [Hgd _]. cbn [app] in Hlink. rewrite Hgd, Hfd, Nat.eqb_refl in Hlink.
+    rewrite Hlink. cbn [is_tramp]. apply (IH low m); auto. discriminate.
+Qed.
+
+(* an exit hook that meets the finish request hands back the real return address of the activation that
+   owns the slot - also when the exiting function was tail-called - and leaves no shadow frame behind *)
+Theorem stop_exit_returns_to_real_caller d ra low m0 s chain :
+  1 <= d -> Forall (fun f => floc f < d) low ->
+  BInvW d ra low m0 s chain -> chain <> [] ->
+  exists s', exit_stop s = Some (s', Real ra) /\ rs s' = [] /\ mem s' d = Real ra.
+Proof.
+  intros Hd Hlow [Hrs Hch Hw Hm Htp] Hne.
+  destruct chain as [|f ch]; [congruence|]. destruct Htp as [_ Hbot].
+  unfold exit_stop. rewrite Hrs. cbn [app].
+  pose proof Hw as Hw'. rewrite Hrs in Hw'. cbn [app WFC] in Hw'. destruct Hw' as (_ & (Hrec & _) & _).
+  rewrite Hrec.
+  pose proof (Forall_inv Hch) as [Hfd _].
+  set (m1 := mem (auto_rehook {| mem := mem s; rs := f :: ch ++ low |})).
+  assert (E : restore_all (f :: ch ++ low) m1 d = Real ra).
+  { change (f :: ch ++ low) with ((f :: ch) ++ low). rewrite restore_all_app.
+    rewrite restore_all_notin by (eapply Forall_impl; [|exact Hlow]; cbn; intros; lia).
+    rewrite Hrs in Hw.
+    destruct (restore_all_chain d (f :: ch) low m1 Hne Hch Hlow Hw) as [E _]. now rewrite E. }
+  eexists. split; [rewrite Hfd, E; reflexivity|]. cbn. auto.
+Qed.
+
+(* why the slot must be re-read: for a tail-called function the saved parent_ip is the trampoline *)
+Example stop_saved_ip_is_trampoline_refuted :
+  let s := fst (run_ops st0 [OPush 1 100; OEnter (HM false) 1; OEnter (HM false) 1]) in
+  option_map snd (exit_stop s) = Some (Real 100) /\
+  match rs s with f :: _ => fip f = Tramp KM | [] => False end.
+Proof. vm_compute. split; reflexivity. Qed.
